@@ -178,10 +178,10 @@ BeginLookup == /\ pc = "scan" /\ InKind /\ Len(It.par) = 1 /\ ~Skipped(Kind)
                /\ pc' = "exact"
                /\ UNCHANGED <<cid, blk, extra, added, bm, bk, bi, pidx, hit, pj>>
 LookupExact == /\ pc = "exact"
-               /\ LET ts == Ts tbl == Tbl IN IF HasKey(tbl, ts) THEN hit' = ts /\ pc' = "apply" ELSE hit' = hit /\ pc' = "reversed"
+               /\ \E ts \in {Ts}, tbl \in {Tbl} : IF HasKey(tbl, ts) THEN hit' = ts /\ pc' = "apply" ELSE hit' = hit /\ pc' = "reversed"
                /\ UNCHANGED <<cid, blk, extra, added, bm, bk, bi, pidx, pj>>
 LookupReversed == /\ pc = "reversed"
-                  /\ LET ts == Ts rts == Rev(ts) tbl == Tbl IN
+                  /\ \E rts \in {Rev(Ts)}, tbl \in {Tbl} :
                      IF ~DevNoReverse /\ HasKey(tbl, rts) THEN hit' = rts /\ pc' = "apply"
                      ELSE /\ hit' = hit
                           /\ pc' = IF Kind = "dihedrals" THEN "pattern" ELSE "error"
@@ -192,18 +192,15 @@ LookupReversed == /\ pc = "reversed"
 Candidates(ts, P) == LET k1 == WildKey(ts, P) k2 == WildKey(Rev(ts), P)
                      IN IF NOrders = 1 THEN <<k1, Rev(k1)>> ELSE <<k1, Rev(k1), k2, Rev(k2)>>
 PatternTry == /\ pc = "pattern"
-              /\ LET ts == Ts
-                     c == Candidates(ts, PList[pidx])
-                     tbl == Tbl
-                     H == {x \in 1..Len(c) : HasKey(tbl, c[x])}
-                 IN IF H # {} THEN hit' = c[CHOOSE x \in H : \A y \in H : x <= y] /\ pc' = "apply" /\ pidx' = pidx
+              /\ \E ts \in {Ts}, tbl \in {Tbl} : \E c \in {Candidates(ts, PList[pidx])} : \E H \in {{x \in 1..Len(c) : HasKey(tbl, c[x])}} :
+                    IF H # {} THEN hit' = c[CHOOSE x \in H : \A y \in H : x <= y] /\ pc' = "apply" /\ pidx' = pidx
                     ELSE /\ hit' = hit
                          /\ IF pidx < Len(PList) THEN pidx' = pidx + 1 /\ pc' = pc
                             ELSE pc' = "error" /\ pidx' = pidx
               /\ UNCHANGED <<cid, blk, extra, added, bm, bk, bi, pj>>
 \* first term replaces the block's interaction, further terms are collected
 ApplyTerms == /\ pc = "apply"
-              /\ LET tbl == Tbl terms == TermsOfKey(tbl, hit) kind == Kind atoms == It.atoms IN
+              /\ \E tbl \in {Tbl}, kind \in {Kind}, atoms \in {It.atoms} : \E terms \in {TermsOfKey(tbl, hit)} :
                    /\ blk' = [blk EXCEPT ![bm][kind][bi].par = terms[1]]
                    /\ extra' = [extra EXCEPT ![kind] = @ \o [x \in 1..(Len(terms) - 1) |-> [atoms |-> atoms, par |-> terms[x + 1]]]]
               /\ bi' = bi + 1 /\ pc' = "scan"
